@@ -5,6 +5,7 @@
   readcanary   readCanaryingBlobAccess (ReadCanary.tla, CanaryContractTrace.tla)
   eviction     LRU / FIFO / RR replacement sets (Eviction.tla, EvictionDefs.tla)
   sector       sector sharing of the block-device backed block (SectorWriter.tla, SectorContractTrace.tla)
+  expiry       actionResultExpiringBlobAccess (ActionExpiry.tla, ExpiryContractTrace.tla)
 """
 import importlib, os, sys, time, traceback
 
